@@ -24,4 +24,16 @@ theorem encodeBatch_src_struct (e : Enc) (batch : List Packet) (c : Ctx) (fuel :
   refine ⟨ofLL (e.toLL.encode batch c).1, ?_, r2, r3, r4, r5, r6, r7⟩
   rw [h, r1]
 
+/-- the same for the public entry points themselves: the two iterator-range overloads of `encode` (translated member templates) -/
+theorem encodeRange_src_struct (e : Enc) (batch : List Packet) (c : Ctx) (fuel : Nat)
+    (hc : c.ok = true) (hmax : c.max < 2 ^ 32) (hb : ∀ p ∈ batch, p.Enc) (hq : e.seqc < 65536) (hf : 65536 ≤ fuel) :
+    ∃ s', Encoder_encode_range_obj fuel (ofLL e.toLL) (batch.map pktIn) c.min c.max
+            = some (s', (e.encode batch c).2.map (EFrame.bytes c.min)) ∧
+      Encoder_encode_ptrRange_obj fuel (ofLL e.toLL) (batch.map pktIn) c.min c.max
+            = some (s', (e.encode batch c).2.map (EFrame.bytes c.min)) ∧
+      s'.f_sequenceCounter = (e.encode batch c).1.seqc ∧ s'.f_messageType = (e.encode batch c).1.curMt := by
+  obtain ⟨s', h, r2, r3, _⟩ := encodeBatch_src_struct e batch c fuel hc hmax hb hq hf
+  obtain ⟨h1, h2⟩ := encode_range_eq fuel (ofLL e.toLL) batch c.min c.max
+  exact ⟨s', by rw [h1, h], by rw [h2, h], r2, r3⟩
+
 end AsamCmp.SrcEnc
